@@ -117,10 +117,14 @@ def extract_default(
 
     default = ""
     par = {"{": 0, "[": 0, "(": 0, ")": 0, "]": 0, "}": 0}
+    quote_mark = None  # the quotation mark of the string the scan is inside of, if any
     sub_l = line[_end_idx:]
     sub_l_len = len(sub_l)
     for idx, ch in enumerate(sub_l):
-        if (
+        if quote_mark is not None:
+            if ch == quote_mark:
+                quote_mark = None
+        elif (
             ch == "."
             and (idx == (sub_l_len - 1) or not (sub_l[idx + 1]).isdigit())
             and par["{"] == par["}"]
@@ -130,6 +134,8 @@ def extract_default(
             break
         elif ch in par:
             par[ch] += 1
+        elif ch in frozenset(("'", '"')) and not default.strip():
+            quote_mark = ch  # the value is a quoted string: a full stop inside it does not end it
         default += ch
     rest_offset = _end_idx + len(default)
 
